@@ -9,7 +9,7 @@ HARNESS = os.path.join(vf.VERIF, 'harness/py/c04_streams.py')
 IMPL = [vf.PY, HARNESS, 'impl']
 HDR = 24
 KINDS = ['valid', 'valid_pert', 'unknown', 'flip', 'trunc', 'false_plaus', 'false_implaus', 'false_span', 'nested',
-         'dots', 'junk', 'reserved_nz', 'lenerr_greedy', 'edge16']
+         'dots', 'junk', 'reserved_nz', 'lenerr_greedy', 'edge16', 'same_var']
 M24 = 1 << 24
 
 
@@ -35,6 +35,8 @@ class Lib:
             c['msg'] = bytes.fromhex(c['default'])
         self.unbuildable = [c for c in d['classes'] if not c['default']]
         self.small = [c for c in self.classes if len(c['msg']) <= 64]
+        self.varied = [c for c in self.classes if len(c.get('variants') or []) >= 2]
+        self.varied_small = [c for c in self.varied if len(c['msg']) <= 100] or self.varied
         self.by_name = {c['name']: c for c in d['classes']}
         self.enum_values = set(d['enum_values'])
         self.class_types = {c['type'] for c in d['classes']}
@@ -132,6 +134,15 @@ class Gen:
             p = c['msg'][HDR:]
             p = {'short': p[:-1], 'long': p + b'\x00', 'empty': b''}[w]
             return mk(c['type'], p, self.nseq(), ver=c['version'] or 0)
+        if kind == 'same_var':
+            # two or three messages of ONE class whose payloads parse to different field values (back to back, or with a
+            # different message in between)
+            c = r.choice(lib.varied_small if r.random() < 0.6 else lib.varied)
+            pls = r.sample(c['variants'], min(len(c['variants']), r.choice([2, 2, 3])))
+            parts = [mk(c['type'], bytes.fromhex(pl), self.nseq(), ver=c['version'] or 0) for pl in pls]
+            if r.random() < 0.3:
+                parts.insert(1, self.valid_msg())
+            return b''.join(parts)
         if kind == 'edge16':
             return mk(lib.unknown_types[1 % len(lib.unknown_types)], bytes(r.randrange(256) for _ in range(r.choice([15, 16, 17]))), self.nseq())
         raise KeyError(kind)
@@ -245,6 +256,10 @@ def classify(impl_r, model_r, spec_r):
         return {'kind': 'result-shape'}
     if '!CB' in impl_r:
         return {'kind': 'callbacks-differ-from-return-value'}
+    if '!AL' in impl_r:
+        return {'kind': 'earlier-result-changed-after-a-later-call'}
+    if '!ID' in impl_r:
+        return {'kind': 'results-share-a-mutable-object'}
     I, S = parse_items(impl_r), parse_items(spec_r)
     spec_unparseable = [it for _, it in S if it.endswith(',X')]
     if impl_r == model_r and spec_unparseable:
@@ -302,8 +317,23 @@ class Engine:
         """returns per case: (oracle, [per chunking (impl_R, impl_A)], [per chunking (model_R, model_A, spec_R)]) or an error string"""
         if not cases:
             return []
+        # spread neighbouring (similarly expensive) cases over the runner shards: run in strided order, undo afterwards
+        if not getattr(self, '_in_strided', False) and len(cases) > 64:
+            k = vf.NCPU
+            perm = [i for j in range(k) for i in range(j, len(cases), k)]
+            self._in_strided = True
+            try:
+                out = self.run([cases[i] for i in perm], mode)
+            finally:
+                self._in_strided = False
+            res = [None] * len(cases)
+            for i, o in zip(perm, out):
+                res[i] = o
+            return res
         il = [c.impl_line(mode) for c in cases]
         io = vf.run_parallel(IMPL, il, env=vf.IMPL_ENV, timeout=3000)
+        if len(cases) > 64:
+            self.ctx.log('implementation ran %d streams' % len(cases))
         ml, idx = [], []
         res = [None] * len(cases)
         for k, (c, o) in enumerate(zip(cases, io)):
@@ -314,6 +344,8 @@ class Engine:
             ml.append(c.model_line(orc, self.default_maxe, mode)); idx.append(k)
             res[k] = [orc, rest]
         mo = vf.run_parallel(self.model, ml, timeout=3000)
+        if len(cases) > 64:
+            self.ctx.log('extracted MODEL and SPEC ran %d streams' % len(cases))
         for k, o in zip(idx, mo):
             if o.startswith('ERROR') or o == '?':
                 res[k] = 'MODEL driver: ' + o[:300]
@@ -475,6 +507,65 @@ def configs_for(r, stream, k):
     return [(0, None), (16, None), (exact, None), (M24, None)][k % 4]
 
 
+def big_cases(ctx, lib, profile, add_case):
+    """size classes 1 KiB .. 70 KiB: large valid messages, corrupted / truncated / false-header candidates of those sizes, with
+    split points inside them, at their end, and fixed-size reads whose completing chunk carries trailing data"""
+    r = ctx.rng
+    g = Gen(lib, r)
+    sizes = [1001, 1100, 1500, 3000, 4095, 4096, 5000] + ([16384, 17000, 70000] if profile == 'C05' or ctx.thorough else [16500, 66000])
+    reps = 3 if ctx.thorough else 1
+    for _ in range(reps):
+        for S in sizes:
+            def big(kind):
+                data = bytes(r.randrange(256) for _ in range(64)) * (S // 64 + 1)
+                data = data[:S]
+                if kind == 'wrapper':
+                    return mk(13120, bytes(8) + data[8:], g.nseq())
+                if kind == 'sta':
+                    return mk(14102, bytes(4) + data[4:], g.nseq())
+                return mk(lib.unknown_types[0], data, g.nseq())
+            shapes = []
+            v = big(r.choice(['wrapper', 'sta', 'unknown']))
+            shapes.append([('valid', g.valid_msg()), ('big_valid', v), ('valid', g.valid_msg()), ('dots', b'.1')])
+            shapes.append([('big_valid', big('unknown')), ('big_valid', big('wrapper'))] if S <= 5000 else [('big_valid', big('wrapper')), ('valid', g.valid_msg())])
+            bad = bytearray(big(r.choice(['wrapper', 'unknown'])))
+            bad[r.choice([5, 30, len(bad) // 2, len(bad) - 1])] ^= 1 << r.randrange(8)
+            shapes.append([('big_flip', bytes(bad)), ('valid', g.valid_msg()), ('valid', g.valid_msg())])
+            # false header claiming S bytes, followed by at least that much real traffic
+            follow = []
+            while sum(len(b) for _, b in follow) < S + 40:
+                follow.append(('valid', g.valid_msg(small=False)) if S < 6000 else ('valid', mk(lib.unknown_types[0], bytes(r.randrange(256) for _ in range(900)), g.nseq())))
+            shapes.append([('false_span', mk(10000, b'', g.nseq(), crc=r.getrandbits(32), psize=S))] + follow)
+            # truncated large message whose claimed length is then filled by following messages
+            t = big('wrapper')
+            shapes.append([('big_trunc', t[:r.choice([24, 100, len(t) // 2, len(t) - 1])])] + follow[:max(2, len(follow) // 2)] + follow)
+            for toks in shapes:
+                stream = b''.join(b for _, b in toks)
+                n = len(stream)
+                # boundaries of the large tokens
+                cuts, acc = set(), 0
+                for kd, b in toks:
+                    if kd.startswith('big') or kd == 'false_span':
+                        for c_ in (acc + 1, acc + 23, acc + 24, acc + 25, acc + len(b) // 2, acc + len(b) - 1, acc + len(b), acc + len(b) + 1,
+                                   acc + r.randrange(1, max(2, len(b)))):
+                            if 0 < c_ < n:
+                                cuts.add(c_)
+                    acc += len(b)
+                cuts = sorted(cuts)
+                if profile == 'C04':
+                    cuts = r.sample(cuts, min(3, len(cuts)))
+                elif S >= 16000 and not ctx.thorough:
+                    cuts = sorted(r.sample(cuts, min(6, len(cuts))))
+                parts = ['ONE'] + ['c:%d,%d' % (c_, n - c_) for c_ in cuts]
+                for rd in ((1024, 4096) if profile == 'C05' else (r.choice([512, 1024, 4096]),)):
+                    parts.append('c:' + ','.join(str(min(rd, n - o)) for o in range(0, n, rd)))
+                parts.append('c:' + ','.join(map(str, random_partition(r, n))))
+                if n <= 3200 and profile == 'C05':
+                    parts.append('BYTES')
+                maxp = r.choice([M24, M24, M24, S, S - 1])
+                add_case(toks, maxp, None, 1, 1, 'size-class-%s' % ('<4K' if S < 4096 else '<64K' if S < 65536 else '>=64K'), ';'.join(parts))
+
+
 def build_cases(ctx, lib, profile):
     """profile 'C04': breadth over configurations/flags with three chunkings; 'C05': depth over chunkings."""
     r = ctx.rng
@@ -495,6 +586,10 @@ def build_cases(ctx, lib, profile):
         return ';'.join(parts)
 
     nadd = [0]
+
+    def add_explicit(tokens, maxp, maxe, rb, ro, origin, chunkings_):
+        j = nadd[0]; nadd[0] += 1
+        cases.append(Case(tokens, maxp, maxe, rb, ro, chunkings_, origin, '%s,%d,%d' % (('likely', 'all', 'likely', 'none')[j % 4], (j // 4) % 2, (j // 8) % 2)))
 
     def add(tokens, maxp, maxe, rb, ro, origin, opts=None):
         # logging options rotate independently of everything else: default ('likely') half of the time
@@ -541,6 +636,14 @@ def build_cases(ctx, lib, profile):
             variants.append(retyped)
             for v in variants:
                 add([('flip', v), ('valid', follower)], M24, None, 1, 1, 'per-class-corrupted', '%s,%d,%d' % (woe, r.randrange(2), r.randrange(2)))
+        # several messages of this class with different field values (results must not alias each other), and the same
+        # class twice around a later callback registration
+        if len(c.get('variants') or []) >= 2:
+            vs = [mk(c['type'], bytes.fromhex(pl), g.nseq(), ver=c['version'] or 0) for pl in c['variants'][:3]]
+            add([('same_var', b''.join(vs))], M24, None, 1, 1, 'per-class-same-type')
+            add([('same_var', vs[0]), ('valid', follower), ('same_var', vs[1])], M24, None, 1, 1, 'per-class-same-type')
+        else:
+            add([('valid', m), ('valid', mk(c['type'], c['msg'][HDR:], g.nseq(), ver=c['version'] or 0))], M24, None, 1, 1, 'per-class-same-type')
     # classes whose default object cannot be serialised: a message of that type with a short payload, and a CRC failure
     for c in lib.unbuildable:
         add([('lenerr_greedy', mk(c['type'], bytes(8), g.nseq())), ('valid', g.valid_msg())], M24, None, 1, 1, 'per-class-unbuildable')
@@ -548,6 +651,7 @@ def build_cases(ctx, lib, profile):
             for n in (0, 8, 40):
                 add([('flip', mk(c['type'], bytes(n), g.nseq(), crc=12345)), ('valid', g.valid_msg())], M24, None, 1, 1, 'per-class-unbuildable',
                     '%s,%d,%d' % (woe, r.randrange(2), r.randrange(2)))
+    big_cases(ctx, lib, profile, add_explicit)
     # bounded-exhaustive token sequences
     import itertools
     # C04: all sequences up to length 3 (quick) / 4 (thorough); C05 (about 100 chunkings per stream): all up to length 2
@@ -682,13 +786,13 @@ def roundtrip_check(ctx, eng, rt):
 def common_evidence(ctx, eng, profile, cases):
     ctx.coverage['rule'] = (
         'streams = concatenations of tokens of %d kinds (%s); every registered payload class (%d buildable by the encoder, %d not) appears alone, '
-        'followed by another message and between junk, with its default payload and a perturbed one; bounded-exhaustive token sequences, '
+        'followed by another message and between junk, with its default payload and a perturbed one, and as two or three messages of the same class with different parseable field values; size classes 1 KiB - 70 KiB (large valid, corrupted, truncated and false-header candidates with split points inside them, at their ends and fixed-size reads); bounded-exhaustive token sequences, '
         'for every class also CRC-failing variants (bit flipped in payload / crc field / header fields, and another message whose type field is re-pointed at the class) '
         'under each warn_on_error setting; sequences under all 16 (max_payload_len_bytes in {0,16,exact,2^24}) x (return_bytes, return_offset) settings, random sequences of 3-9 tokens, '
         'the logging options warn_on_error (none/likely/all), warn_on_gap, warn_on_unrecognized rotate over all streams (log output suppressed), '
         'maxima above 2^24 and runs with the sanity limit patched to a small value. Each stream is decoded by the implementation, by the extracted MODEL '
         '(PyDecoder_on_data) and by the extracted SPEC (feed PyDecoder_judge) under every listed chunking; per call the returned '
-        '(type, sequence, payload size, crc, raw bytes, offset, digest of payload field values) and callback deliveries are compared with the SPEC, '
+        '(type, sequence, payload size, crc, raw bytes, offset, digest of payload field values) are compared with the SPEC; callbacks (catch-all and type specific, registered before the first call and between calls) must receive exactly the entries returned after their registration; every earlier entry is re-read after later calls (header, raw bytes, payload values must not change) and entries must not share mutable objects with each other or the decoder buffer; '
         'and the private attributes with the MODEL. A case = (stream, settings, chunking); distinct by its content.'
         % (len(KINDS), ', '.join(KINDS), len(eng.lib.classes), len(eng.lib.unbuildable)))
     ctx.coverage['exhaustive'] = False
